@@ -30,6 +30,7 @@ NOGO = [
 ]
 
 _dom = None
+_GRID = {}
 
 
 def init_worker():
@@ -115,6 +116,17 @@ def check_one(case, res):
     nogos = [[(float(x), float(y)) for x, y in poly] for poly in case["nogos"]]
     b_min, bx, by = case["spacing"]
     res["evals"] += 1
+    xmax = max(x for poly in props for x, _ in poly)
+    ymax = max(y for poly in props for _, y in poly)
+    # the uncut candidate grid of this bounding box and spacing window, taken BEFORE the tool's design runs and frozen (tuples) the first
+    # time this worker needs it: what a design leaves behind in the lists the generator hands out cannot reach the oracle
+    gkey = (xmax, ymax, b_min, bx, by)
+    if gkey not in _GRID:
+        try:
+            g0, _ = _dom.bi_rectangle_nested(xmax, ymax, b_min, bx, by)
+            _GRID[gkey] = tuple(tuple(tuple((float(px), float(py)) for px, py in f) for f in dom) for dom in g0)
+        except Exception:  # noqa: BLE001
+            _GRID[gkey] = None
     try:
         # through the public path: geometry setter -> GeometricConstraintsBiRectangleConstrained -> DesignBiRectangleConstrained
         from vf import scenarios
@@ -130,11 +142,8 @@ def check_one(case, res):
     except Exception as e:  # noqa: BLE001
         res["violations"].append(core.viol("generator_raised", case, msg=f"polygonal_land_constraint raised {type(e).__name__}: {e}", exc=type(e).__name__))
         return
-    xmax = max(x for poly in props for x, _ in poly)
-    ymax = max(y for poly in props for _, y in poly)
-    try:
-        grid, _ = _dom.bi_rectangle_nested(xmax, ymax, b_min, bx, by)
-    except Exception:  # noqa: BLE001
+    grid = _GRID[gkey]
+    if grid is None:
         res.bump("no_grid")
         return
     cache = {}
